@@ -254,7 +254,8 @@ def run_T(case, ctx, vecs=None):
     has_nan = bool(np.isnan(vecs).any())
     cfg = stack + (',nan' if has_nan else '')
     if op == 'rank':
-        cfg += ',method=%s' % param
+        # rank_transform ranks each RDM on its own by construction: class = method (+ NaN present)
+        cfg = 'method=%s' % param + (',nan' if has_nan else '')
     # ---------------- reference
     if op == 'geotop':
         cands = _geotop_candidates(vecs.tolist(), param[0], param[1])
@@ -613,9 +614,8 @@ def shards(tier, seed):
     out = []
     # ---- T: Tier-A
     out.append({'kind': 'T', 't': 'single', 'alpha': 'm1012^3', 'rows': [0, 64]})
-    for a in range(0, 64, 8 if not th else 4):
-        out.append({'kind': 'T', 't': 'pairs', 'alpha': 'm1012^3', 'rows': [a, a + (8 if not th else 4)],
-                    'partners': 'all'})
+    for a in range(0, 64, 4):
+        out.append({'kind': 'T', 't': 'pairs', 'alpha': 'm1012^3', 'rows': [a, a + 4], 'partners': 'all'})
     for a in range(0, 729, 81):
         out.append({'kind': 'T', 't': 'single', 'alpha': '012^6', 'rows': [a, a + 81]})
     step = 81 if not th else 27
